@@ -476,6 +476,20 @@ pub(crate) fn load_constant(
                 i64_bytes_to_i32,
             )?
         }
+        // RTen does not natively support i16 tensors. Like rten-convert, widen
+        // to i32 at load time.
+        Some(onnx::DataType::INT16) => {
+            let i16_bytes_to_i32 = |bytes: [u8; 2]| i16::from_le_bytes(bytes) as i32;
+            convert_constant(
+                name,
+                &shape,
+                raw_data.as_deref(),
+                external_data,
+                &initializer.int32_data,
+                |x| x,
+                i16_bytes_to_i32,
+            )?
+        }
         Some(onnx::DataType::BOOL) => {
             let u8_to_i32 = |bytes: [u8; 1]| if bytes[0] != 0 { 1 } else { 0 };
             convert_constant(
